@@ -171,7 +171,10 @@ def run_debouncer(b: Batch, cfg, instr=None, hold_plan=None):
         if not x["events"]:
             continue
         tcs = {id(e): tc for e, tc, _ in handled}
-        first, last = tcs[id(x["events"][0])], tcs[id(x["events"][-1])]
+        trets = {id(e): (tr if tr is not None else tc) for e, tc, tr in handled}
+        # first event: the time it was handed over at the latest (call stamp); last event: when handle_event() had returned
+        # (under load the helper thread may get to the call late: the debouncer cannot have seen the event before that)
+        first, last = tcs[id(x["events"][0])], trets[id(x["events"][-1])]
         b.count("debounce_timings_judged")
         if x["t"] - first < interval - 0.002:
             b.violation("debouncer-too-early", f"batch delivered {x['t'] - first:.4f} s after its first event (interval {interval})", witness=wit, replay_spec=rs)
@@ -323,7 +326,7 @@ def run_autorestart(b: Batch, inst, cfg, instr=None, hold_plan=None):
     helpers = [t for t in threading.enumerate() if t not in threads0 and type(t).__module__.startswith("watchdog.")]
     alive = monitors.wait_threads_gone(helpers, 3.0)
     if alive and not later_spawns:
-        b.violation("autorestart-helper-thread-alive", f"helper threads alive after stop(): {[monitors.thread_desc(t) for t in alive]}", witness=wit, replay_spec=rs)
+        b.violation("autorestart-orphan-after-concurrent-restarts" if peak > 1 else "autorestart-helper-thread-alive", f"helper threads alive after stop(): {[monitors.thread_desc(t) for t in alive]}", witness=wit, replay_spec=rs)
     # restart accounting on quiescent scripts
     if cfg.get("quiescent") and (hold_plan is None or (hold_plan.get("linger") and not hold_plan.get("stop_while_held"))):
         spawns = sum(1 for r in table.log if r["what"] == "spawn")
